@@ -254,7 +254,7 @@ def dumpV (d : Defs) : Nat → Ty → Val → String
     match resolve d t, v with
     | _, .bool b => if b then "t" else "f"
     | _, .int k => s!"n{k};"
-    | _, .dbl b => "g" ++ hex16T b
+    | _, .dbl b => if dblIsNaN b then "g7ff8000000000001" else "g" ++ hex16T b   -- dumps compare NaNs as "is NaN" (JSON carries no payload)
     | _, .bytes b => "q" ++ hexRaw b ++ ";"
     | .list a, .list vs => "[" ++ String.join (vs.map (dumpV d n a)) ++ "]"
     | .set a, .list vs => "[" ++ String.join (sortStrsT (vs.map (dumpV d n a))) ++ "]"
